@@ -507,8 +507,79 @@ def b_cse(tier, seed):
     return b
 
 
+def run_branching(ops):
+    """ops over several mappers: ('call', k, e) | ('copy', k) (appends a copy of mapper k).  Returns one program per mapper."""
+    from pymbolic.mapper.c_code import CCodeMapper
+    mappers = [CCodeMapper()]
+    lineage = [[]]          # expressions seen by each mapper's lineage
+    texts = [[]]
+    for op in ops:
+        if op[0] == "call":
+            _, k, e = op
+            texts[k].append((e, mappers[k](e)))
+            lineage[k].append(e)
+        else:
+            _, k = op
+            mappers.append(mappers[k].copy())
+            lineage.append(list(lineage[k]))
+            texts.append([])
+    return [dict(decls=list(m.cse_name_list), texts=[t for _, t in tx], exprs=[e for e, _ in tx], seen=ln) for m, tx, ln in zip(mappers, texts, lineage)]
+
+
+def b_branching(tier, seed):
+    import pymbolic.primitives as p
+    rng = random.Random(seed)
+    b = BoundedRun("cse-branching-histories", rule="histories in which a mapper that has already hoisted subexpressions is copied and BOTH the original and the copy (or two sibling "
+                   "copies) go on hoisting: for every mapper of the history its own list of assignments has pairwise distinct names, assigns before use, holds exactly one "
+                   "assignment per distinct wrapped subexpression its lineage has seen, and its program (own assignments + own expression texts) compiled and run equals the "
+                   "evaluator on the integer grid", bound="all ordered triples of 7 base expressions in two history shapes (quick: 60 triples)",
+                   functions=["CCodeMapper.__init__", "CCodeMapper.copy", "CCodeMapper.map_common_subexpression"])
+    a, bb, c = p.Variable("a"), p.Variable("b"), p.Variable("c")
+    CSE = p.CommonSubexpression
+    s1, s2, s3, s4 = p.Sum((a, bb)), p.Product((bb, c)), p.Sum((p.Product((a, a)), 1)), p.Sum((c, 5))
+    E = [p.Sum((CSE(s1, "t"), 1)), p.Product((CSE(s2, "t"), 2)), p.Sum((CSE(s3, "t"), CSE(s1, "t"))), p.Sum((CSE(s4), CSE(s2))), p.Product((CSE(s3), CSE(s4, "u"))),
+         p.Sum((CSE(s1, "u"), CSE(s4, "t"))), p.Sum((CSE(p.Sum((CSE(s1, "t"), 2)), "w"), 1))]
+    triples = list(itertools.permutations(E, 3))
+    if tier != "thorough":
+        rng.shuffle(triples)
+        triples = triples[:60]
+    cases, exprs, idx = [], {}, 0
+    from props.c06 import all_nodes
+    for e1, e2, e3 in triples:
+        for shape in (0, 1):
+            ops = [("call", 0, e1), ("copy", 0), ("call", 1, e2), ("call", 0, e3), ("call", 1, e3)] if shape == 0 else \
+                [("call", 0, e1), ("copy", 0), ("copy", 0), ("call", 1, e2), ("call", 2, e3), ("call", 0, e2), ("call", 2, e2)]
+            r = outcome.run(lambda: run_branching(ops))
+            b.case(("branch", repr(ops)), sample=dict(shape=shape, exprs=[repr(e1)[:60], repr(e2)[:60], repr(e3)[:60]]))
+            if r[0] != "val":
+                b.fail(Failure("cse-branching-histories", f"what=mapper-raised shape={shape} exprs={[e1, e2, e3]!r}"[:600], dict(kind="branch", ops=repr(ops)), expected="C texts",
+                               actual=outcome.describe(r)[:200], functions=["CCodeMapper.copy", "CCodeMapper.map_common_subexpression"]))
+                continue
+            for k, prog in enumerate(r[1]):
+                kids = []
+                for e in prog["seen"]:
+                    for nd in all_nodes(e):
+                        if isinstance(nd, p.CommonSubexpression) and nd.child not in kids:
+                            kids.append(nd.child)
+                res = dict(decls=[(n, rhs) for n, rhs in prog["decls"]], texts=prog["texts"])
+                v = hoisting_violation([("call", e) for e in prog["seen"]], res)
+                if v:
+                    b.fail(Failure("cse-branching-histories", f"what=hoisting-invariant shape={shape} mapper={k} {v[:60].split(':')[0]} exprs={[e1, e2, e3]!r}"[:600],
+                                   dict(kind="branch", ops=repr(ops)), expected="unique names, assigned once, before use", actual=v[:300],
+                                   functions=["CCodeMapper.__init__", "CCodeMapper.copy"]))
+                    names = [n for n, _ in res["decls"]]
+                    if len(set(names)) != len(names) or any(not isinstance(rhs, str) for _, rhs in res["decls"]):
+                        continue
+                if prog["texts"]:
+                    cases.append((idx, res["decls"], prog["texts"]))
+                    exprs[idx] = (prog["exprs"], prog["texts"])
+                    idx += 1
+    execute(b, "cse-branching-histories", "int", cases, exprs)
+    return b
+
+
 def bounded(tier, seed, procs):
-    return [b_programs(tier, seed, "int"), b_systematic(tier), b_programs(tier, seed, "double"), b_cse(tier, seed)]
+    return [b_programs(tier, seed, "int"), b_systematic(tier), b_programs(tier, seed, "double"), b_cse(tier, seed), b_branching(tier, seed)]
 
 
 def proof_jobs(tier):
